@@ -238,6 +238,10 @@ def _search_dirs(dirs: List[Path], search_glob: str) -> List[Path]:
         #       are matched literally. Only `search_glob` is a pattern.
         for path_str in glob.iglob(os.path.join(glob.escape(str(Path(directory))), search_glob), recursive=True):
             path = Path(path_str)
+            # The glob also matches directories (e.g. a directory named `x.py`, or any directory
+            # when no suffix is given). Only files are component files.
+            if not path.is_file():
+                continue
             # Skip any subdirectory or file (under the top-level directory) that starts with an underscore
             rel_dir_parts = list(path.relative_to(directory).parts)
             name_part = rel_dir_parts.pop()
